@@ -267,6 +267,62 @@ class C13(F.Spec):
                 after = None
         return fs
 
+    def extra_findings(self, tier, rng):
+        """the submitted configuration (config-mode form, real supla_esp_recv_callback) replaces the one in RAM only if
+        the flash write succeeded: POST requests with a flash fault planned for the save they trigger"""
+        import common as C
+        exe = C.build_driver("drv_form", "base", extra_flags=["-fwrapv"])
+        fs, ev, nt = [], 0, 0
+        for i in range(40 if tier == "quick" else 400):
+            old = bytes(rng.choice(b"abcdefghijklmnop") for _ in range(rng.randint(1, 20)))
+            new = bytes(rng.choice(b"QRSTUVWXYZ") for _ in range(rng.randint(1, 20)))
+            svr = bytes(rng.choice(b"xyz.") for _ in range(rng.randint(1, 30)))
+            fault = rng.choice([None, (1, 0), (1, 1), (2, 0), (2, 1), (3, 0)])
+            first = b"POST / HTTP/1.1\r\n\r\nsid=" + old + b"&svr=old.example&eml=a%40b.c&pro=0&led=1"
+            second = b"POST / HTTP/1.1\r\n\r\nsid=" + new + b"&svr=" + svr + b"&eml=c%40d.e&pro=0&led=0"
+            ops = ["conn", "seg " + first.hex(), "conn", "show"]
+            if fault:
+                ops.append("fault %d %d" % fault)
+            ops += ["seg " + second.hex(), "show"]
+            ev += 1
+            f, nontrivial = self.form_oracle(exe, ops, new)
+            nt += 1 if nontrivial else 0
+            if f is not None:
+                fs.append((f, ops))
+                break
+        return ev, nt, fs
+
+    def form_oracle(self, exe, ops, new=None):
+        import common as C
+        rc, out, err = C.run_lines([exe], "\n".join(ops) + "\n")
+        if rc != 0:
+            return F.Finding("crash", "form handler aborted (rc=%s): %s" % (rc, err[-600:])), True
+        groups, cur = [], []
+        for ln in out:
+            if ln == ".":
+                groups.append(cur)
+                cur = []
+            else:
+                cur.append(ln)
+        recs = [x.split()[1] for g in groups for x in g if x.startswith("CFGREC ")]
+        seg2 = groups[-2] if len(groups) >= 2 else []
+        flash = [x.split() for x in seg2 if x.startswith("FLASH ")]
+        failed = any(f[-1] != "0" for f in flash)
+        if len(recs) != 2 or not flash:
+            return None, False
+        if failed and recs[0] != recs[1]:
+            return F.Finding("ram-replaced-after-failed-save", "the save of a submitted form failed (%s) but the configuration in RAM "
+                             "was replaced by the submitted one" % " ".join(" ".join(f) for f in flash if f[-1] != "0")), True
+        if not failed and new is not None and new.hex() not in recs[1]:
+            return F.Finding("saved-form-not-in-ram", "the form was saved but the configuration in RAM does not hold the submitted SSID"), True
+        return None, True
+
+    def extra_replay(self, ops):
+        import common as C
+        exe = C.build_driver("drv_form", "base", extra_flags=["-fwrapv"])
+        f, _ = self.form_oracle(exe, ops)
+        return [f] if f is not None else []
+
     def nontrivial_key(self, case, groups):
         raw = case.meta.get("raw_impl") or []
         k = set()
